@@ -94,11 +94,18 @@ structure BWorld where
   wd : World := {}
   e : Term
 
+/-- the environment disturbing the display (`Term.corrupt`: every cell garbage; pen, hyperlink state and cursor unknown).  On a
+    terminal for which the screen has no hyperlink strings the disturbance leaves the hyperlink state alone: the library has no
+    way to re-establish it there (tscreen.go:905 writes nothing), so no statement about the display could survive it — such
+    terminals do not know OSC 8 in the first place. -/
+def corruptFor (rc : RenderCfg) (t : Term) : Term :=
+  if rc.d.enterUrl = [] then { t.corrupt with linkKnown := t.linkKnown } else t.corrupt
+
 def BWorld.step (c : DrawCfg) (rc : RenderCfg) (b : BWorld) (op : ScrOp) : BWorld :=
   let cmds := (b.wd.sw.step c op).2
   { wd := b.wd.step c op,
     e := match op with
-      | .corrupt => b.e.corrupt
+      | .corrupt => corruptFor rc b.e
       | .ttyResizeQuiet w h => b.e.resize w.toNat h.toNat
       | .ttyResizeNotify w h => (b.e.resize w.toNat h.toNat).feed (Render.renderAll rc cmds)
       | _ => b.e.feed (Render.renderAll rc cmds) }
@@ -110,19 +117,29 @@ theorem run_wd (c : DrawCfg) (rc : RenderCfg) (ops : List ScrOp) : ∀ b : BWorl
   | nil => intro b; rfl
   | cons o os ih => intro b; simp only [BWorld.run, List.foldl_cons, World.run] at ih ⊢; rw [ih]; rfl
 
-theorem rep_corrupt {dc : DrawCfg} {rc : RenderCfg} {t : Term} {a : ATerm} (R : Rep dc rc t a) : Rep dc rc t.corrupt a.corrupt :=
-  { good := ⟨R.good.st, R.good.utf8, R.good.font, R.good.g0, R.good.so, R.good.irm, R.good.mal, R.good.rw⟩
-    w := R.w, h := R.h
+theorem rep_corrupt {dc : DrawCfg} {rc : RenderCfg} {t : Term} {a : ATerm} (R : Rep dc rc t a) :
+    Rep dc rc (corruptFor rc t) a.corrupt := by
+  have hw : (corruptFor rc t).grid.w = t.grid.w := by unfold corruptFor; split <;> rfl
+  have hh : (corruptFor rc t).grid.h = t.grid.h := by unfold corruptFor; split <;> rfl
+  exact
+  { good := by unfold corruptFor; split <;> exact ⟨R.good.st, R.good.utf8, R.good.font, R.good.g0, R.good.so, R.good.irm, R.good.mal, R.good.rw⟩
+    quiet := ⟨fun h => by unfold corruptFor; rw [if_pos h]; exact R.quiet.link h,
+              fun h => by unfold corruptFor; split <;> exact R.quiet.vis h⟩
+    w := by rw [hw]; exact R.w, h := by rw [hh]; exact R.h
     cells := fun _ _ _ _ => trivial
     conts := fun _ _ _ => Or.inr rfl
     cur := by intro x y h; simp [ATerm.corrupt] at h
     pen := by intro s h; simp [ATerm.corrupt] at h
     vis := by intro b h; simp [ATerm.corrupt] at h
-    shape := R.shape }
+    shape := by
+      intro cs cc h h7 hn
+      have : (corruptFor rc t).modes = t.modes := by unfold corruptFor; split <;> rfl
+      rw [this]; exact R.shape cs cc h h7 hn }
 
 theorem rep_resize {dc : DrawCfg} {rc : RenderCfg} {t : Term} {a : ATerm} (R : Rep dc rc t a) (w h : Int) (hw : 0 ≤ w) (hh : 0 ≤ h) :
     Rep dc rc (t.resize w.toNat h.toNat) (a.resized w h) :=
   { good := ⟨R.good.st, R.good.utf8, R.good.font, R.good.g0, R.good.so, R.good.irm, R.good.mal, R.good.rw⟩
+    quiet := ⟨R.quiet.link, R.quiet.vis⟩
     w := by show ((w.toNat : Nat) : Int) = w; omega
     h := by show ((h.toNat : Nat) : Int) = h; omega
     cells := fun _ _ _ _ => trivial
@@ -138,7 +155,6 @@ structure CfgB (c : DrawCfg) (rc : RenderCfg) : Prop where
   rwB : RwB c.rw
   pay : Utf8Payload c
   noCorner : c.Plain
-  hide : c.hasHide = true
   fx : CapsFx c rc
 
 theorem rep_step {c : DrawCfg} {rc : RenderCfg} (hc : CfgB c rc) {b : BWorld} (inv : WInv c b.wd) (bi : BWInv c b.wd)
@@ -163,7 +179,7 @@ theorem rep_step {c : DrawCfg} {rc : RenderCfg} (hc : CfgB c rc) {b : BWorld} (i
     rw [et]
     apply simA R
     rw [ecmd]
-    apply draw_admits hc.rwOk hc.rwB hc.pay hc.noCorner hc.hide
+    apply draw_admits hc.rwOk hc.rwB hc.pay hc.noCorner
     have hsz : (b.wd.sw.s.resize (some (b.wd.sw.ttyw, b.wd.sw.ttyh))).w = b.wd.sw.ttyw ∧
         (b.wd.sw.s.resize (some (b.wd.sw.ttyw, b.wd.sw.ttyh))).h = b.wd.sw.ttyh ∧
         BufOkS c (b.wd.sw.s.resize (some (b.wd.sw.ttyw, b.wd.sw.ttyh))) := by
@@ -179,7 +195,7 @@ theorem rep_step {c : DrawCfg} {rc : RenderCfg} (hc : CfgB c rc) {b : BWorld} (i
     show Rep c rc (b.e.feed (Render.renderAll rc (b.wd.sw.step c .sync).2)) (b.wd.t.applyAll (b.wd.sw.step c .sync).2)
     apply simA R
     rw [ecmd]
-    apply draw_admits hc.rwOk hc.rwB hc.pay hc.noCorner hc.hide
+    apply draw_admits hc.rwOk hc.rwB hc.pay hc.noCorner
     obtain ⟨okb, _, e1, e2, _⟩ := (prep_ok hc.rwOk b.wd.sw.s b.wd.sw.ttyw b.wd.sw.ttyh inv.buf inv.fini inv.clear).1
     exact { tw := by rw [e1]; exact inv.tdim.1, th := by rw [e2]; exact inv.tdim.2, buf := okb, ext := bi.b.prepSync _ _ bi.tty }
   | ttyResizeNotify w h =>
@@ -189,7 +205,7 @@ theorem rep_step {c : DrawCfg} {rc : RenderCfg} (hc : CfgB c rc) {b : BWorld} (i
       ((b.wd.t.resized w h).applyAll (b.wd.sw.step c (.ttyResizeNotify w h)).2)
     apply simA (rep_resize R w h hb.1 hb.2.1)
     rw [ecmd]
-    apply draw_admits hc.rwOk hc.rwB hc.pay hc.noCorner hc.hide
+    apply draw_admits hc.rwOk hc.rwB hc.pay hc.noCorner
     obtain ⟨okb, _, e1, e2, _⟩ := (prep_ok hc.rwOk b.wd.sw.s w h inv.buf inv.fini inv.clear).2
     exact { tw := by rw [e1]; rfl, th := by rw [e2]; rfl, buf := okb, ext := bi.b.prepResize _ _ hb }
 
